@@ -1427,7 +1427,7 @@ func (l *ChainedSeqContext3) apply(ctx *Context, a, b int) int {
 	}
 
 	p = a
-	matchPos := append(ctx.scratch[:0], p)
+	matchPos := ctx.scratch[:0] // every matched position is appended in the loop
 	glyphsNeeded = len(l.Input)
 	for _, cov := range l.Input {
 		if p+glyphsNeeded-1 >= b || !cov[seq[p].GID] {
@@ -1437,13 +1437,21 @@ func (l *ChainedSeqContext3) apply(ctx *Context, a, b int) int {
 		matchPos = append(matchPos, p)
 		glyphsNeeded--
 		p++
-		for p+glyphsNeeded < b && !keep.Keep(seq[p].GID) {
+		// Ignored glyphs never take part in the match: skip all of them
+		// (the test at the top of the loop notices if too few glyphs remain).
+		for p < b && !keep.Keep(seq[p].GID) {
 			p++
 		}
 	}
 	next := p
 
 	glyphsNeeded = len(l.Lookahead)
+	if glyphsNeeded > 0 {
+		// The lookahead may extend beyond b: skip ignored glyphs there, too.
+		for p < len(seq) && !keep.Keep(seq[p].GID) {
+			p++
+		}
+	}
 	for _, cov := range l.Lookahead {
 		if p+glyphsNeeded-1 >= len(seq) || !cov[seq[p].GID] {
 			ctx.scratch = matchPos // return the scratch space
@@ -1451,7 +1459,7 @@ func (l *ChainedSeqContext3) apply(ctx *Context, a, b int) int {
 		}
 		glyphsNeeded--
 		p++
-		for p+glyphsNeeded < len(seq) && !keep.Keep(seq[p].GID) {
+		for p < len(seq) && !keep.Keep(seq[p].GID) {
 			p++
 		}
 	}
